@@ -5,7 +5,7 @@
    receiver's fields: a new field, or a new package-level variable (a pool, a cache, a scratch buffer), is state the
    model does not have, and the correspondence runs no longer justify the theorems. *)
 From Coq Require Import List String.
-From Mant Require Import Gen.Shapes Model.ShapesExpected Gen.Wraps Model.WrapsExpected.
+From Mant Require Import Gen.Shapes Model.ShapesExpected Gen.Wraps Model.WrapsExpected Gen.Decisions Model.DecisionsExpected.
 
 Theorem C01_state_space : shapes_C01 = expected_C01.
 Proof. reflexivity. Qed.
@@ -18,3 +18,11 @@ Print Assumptions C01_state_space.
 Theorem C01_wrap_sites : wraps_C01 = expected_wraps_C01.
 Proof. reflexivity. Qed.
 Print Assumptions C01_wrap_sites.
+
+(* A hand-written model follows the code's own case analysis; the correspondence runs only sample inputs, so a new
+   case that no sampled input takes would go unnoticed.  The conditions, case expressions, loop headers, select /
+   go / defer statements, mutex calls and literals (message texts excepted) of every function are re-read on every
+   run (go2coq decisions) and must be the ones the models were written against. *)
+Theorem C01_case_analysis : decisions_C01 = expected_decisions_C01.
+Proof. reflexivity. Qed.
+Print Assumptions C01_case_analysis.
